@@ -389,6 +389,8 @@ def vecFor (cfg : Cfg) (r : Reporter) (kind : UseKind) (name : Bytes) (keys : Li
   | .histogram spec => histogramVec cfg.variant r name keys spec.promBounds
   | .counterAs => counterVec r name keys
   | .gaugeAs => gaugeVec r name keys
+  | .counterAsD desc => counterVecD r name keys desc
+  | .gaugeAsD desc => gaugeVecD r name keys desc
 
 theorem useMetric_eq (cfg : Cfg) (r : Reporter) (kind : UseKind) (name : Bytes) (tags : Tags) :
     useMetric cfg r kind name tags =
@@ -402,6 +404,8 @@ theorem useMetric_eq (cfg : Cfg) (r : Reporter) (kind : UseKind) (name : Bytes) 
   | histogram spec => rfl
   | counterAs => rfl
   | gaugeAs => rfl
+  | counterAsD desc => rfl
+  | gaugeAsD desc => rfl
 
 /-- what is known about every cached vector, relative to the first uses made so far -/
 structure CacheOk (cfg : Cfg) (us : List Use) (r : Reporter) : Prop where
@@ -455,6 +459,50 @@ theorem counterVec_spec (cfg : Cfg) (us : List Use) (r : Reporter) (name : Bytes
 theorem gaugeVec_spec (cfg : Cfg) (us : List Use) (r : Reporter) (name : Bytes) (keys : List Bytes)
     (hc : CacheOk cfg us r) : VecSpec cfg us r .gauge name (gaugeVec r name keys) := by
   unfold gaugeVec
+  split
+  · next f hf =>
+    have := hc.gauges _ _ hf
+    exact ⟨hc, rfl, rfl, (fun f' e => by
+      injection e with e; injection e with e; subst e
+      exact ⟨this.1, this.2, fun h => by rw [this.2] at h; cases h⟩), (fun _ e => by cases e)⟩
+  · dsimp only
+    split
+    · exact ⟨hc, rfl, rfl, (fun f' e => by cases e), (fun _ e => by cases e)⟩
+    · refine ⟨⟨hc.counters, ?_, hc.summaries, hc.histograms⟩, rfl, rfl, ?_, (fun _ e => by cases e)⟩
+      · intro key f hf
+        rw [lookupKey_cons] at hf
+        split at hf
+        · next hk => injection hf with hf; subst hf; subst hk; exact ⟨rfl, rfl⟩
+        · exact hc.gauges _ _ hf
+      · intro f' e
+        injection e with e; injection e with e; subst e
+        exact ⟨rfl, rfl, fun h => by cases h⟩
+
+theorem counterVecD_spec (cfg : Cfg) (us : List Use) (r : Reporter) (name : Bytes) (keys : List Bytes) (desc : Bytes)
+    (hc : CacheOk cfg us r) : VecSpec cfg us r .counter name (counterVecD r name keys desc) := by
+  unfold counterVecD
+  split
+  · next f hf =>
+    have := hc.counters _ _ hf
+    exact ⟨hc, rfl, rfl, (fun f' e => by
+      injection e with e; injection e with e; subst e
+      exact ⟨this.1, this.2, fun h => by rw [this.2] at h; cases h⟩), (fun _ e => by cases e)⟩
+  · dsimp only
+    split
+    · exact ⟨hc, rfl, rfl, (fun f' e => by cases e), (fun _ e => by cases e)⟩
+    · refine ⟨⟨?_, hc.gauges, hc.summaries, hc.histograms⟩, rfl, rfl, ?_, (fun _ e => by cases e)⟩
+      · intro key f hf
+        rw [lookupKey_cons] at hf
+        split at hf
+        · next hk => injection hf with hf; subst hf; subst hk; exact ⟨rfl, rfl⟩
+        · exact hc.counters _ _ hf
+      · intro f' e
+        injection e with e; injection e with e; subst e
+        exact ⟨rfl, rfl, fun h => by cases h⟩
+
+theorem gaugeVecD_spec (cfg : Cfg) (us : List Use) (r : Reporter) (name : Bytes) (keys : List Bytes) (desc : Bytes)
+    (hc : CacheOk cfg us r) : VecSpec cfg us r .gauge name (gaugeVecD r name keys desc) := by
+  unfold gaugeVecD
   split
   · next f hf =>
     have := hc.gauges _ _ hf
@@ -575,6 +623,12 @@ theorem vecFor_spec (cfg : Cfg) (us : List Use) (r : Reporter) (kind : UseKind) 
     exact ⟨h.cache, h.series, h.errors, h.fam, h.repaired⟩
   | gaugeAs =>
     have h := gaugeVec_spec cfg us r name (keysOf tags) hc
+    exact ⟨h.cache, h.series, h.errors, h.fam, h.repaired⟩
+  | counterAsD desc =>
+    have h := counterVecD_spec cfg us r name (keysOf tags) desc hc
+    exact ⟨h.cache, h.series, h.errors, h.fam, h.repaired⟩
+  | gaugeAsD desc =>
+    have h := gaugeVecD_spec cfg us r name (keysOf tags) desc hc
     exact ⟨h.cache, h.series, h.errors, h.fam, h.repaired⟩
 
 
